@@ -477,3 +477,87 @@ Proof.
   intros Hr Hi Hneg H. simpl in H. inversion H; subst. unfold float_text.
   apply complex_text_ok; assumption.
 Qed.
+
+(* ================= integers ================= *)
+Lemma digits_fuel_hexd fuel : forall z acc, forallb hexd acc = true ->
+  forallb hexd (digits_fuel fuel 16 z acc) = true.
+Proof.
+  induction fuel as [|k IH]; intros z acc Ha; simpl; [exact Ha|].
+  assert (Ha' : forallb hexd (hexdig (z mod 16) :: acc) = true)
+    by (cbn [forallb]; rewrite hexd_mod, Ha; reflexivity).
+  destruct (z / 16 =? 0); [exact Ha'|apply IH, Ha'].
+Qed.
+Lemma digits_fuel_nonempty fuel : forall base z acc, nonempty acc = true ->
+  nonempty (digits_fuel fuel base z acc) = true.
+Proof.
+  induction fuel as [|k IH]; intros base z acc Ha; simpl; [exact Ha|].
+  destruct (z / base =? 0); [reflexivity|apply IH; reflexivity].
+Qed.
+
+(* hex_text_ok: what formatUnsigned writes is a hexadecimal literal of the scanner *)
+Theorem hex_text_ok z : is_hex_literal (hex_text z) = true.
+Proof.
+  unfold hex_text, is_hex_literal, digits. rewrite !Z.eqb_refl. cbn [andb].
+  cbn [digits_fuel]. set (a := [hexdig (Z.abs z mod 16)]).
+  assert (Hh : forallb hexd a = true) by (unfold a; cbn [forallb]; rewrite hexd_mod; reflexivity).
+  destruct (Z.abs z / 16 =? 0).
+  - unfold a at 1. cbn [nonempty andb]. exact Hh.
+  - rewrite digits_fuel_nonempty by reflexivity. cbn [andb]. apply digits_fuel_hexd, Hh.
+Qed.
+
+Lemma digit_hexdig d : 0 <= d < 10 -> digit (hexdig d) = true.
+Proof.
+  intros H. unfold hexdig, digit. replace (d <? 10) with true by (symmetry; apply Z.ltb_lt; lia).
+  apply andb_true_iff. split; apply Z.leb_le; lia.
+Qed.
+Lemma digit19_hexdig d : 0 < d < 10 -> digit19 (hexdig d) = true.
+Proof.
+  intros H. unfold hexdig, digit19. replace (d <? 10) with true by (symmetry; apply Z.ltb_lt; lia).
+  apply andb_true_iff. split; apply Z.leb_le; lia.
+Qed.
+
+(* with enough fuel the decimal digits of a positive number start with a non-zero digit *)
+Lemma digits_fuel_ordinal fuel : forall z acc, 0 < z < 2 ^ Z.of_nat fuel -> forallb digit acc = true ->
+  ordinal_ok (digits_fuel fuel 10 z acc) = true.
+Proof.
+  induction fuel as [|k IH]; intros z acc Hz Ha.
+  - simpl in Hz. lia.
+  - cbn [digits_fuel].
+    assert (Hm : 0 <= z mod 10 < 10) by (apply Z.mod_pos_bound; lia).
+    assert (Ha' : forallb digit (hexdig (z mod 10) :: acc) = true)
+      by (cbn [forallb]; rewrite (digit_hexdig _ Hm), Ha; reflexivity).
+    destruct (z / 10 =? 0) eqn:E.
+    + apply Z.eqb_eq in E.
+      assert (Hsmall : z < 10) by (apply Z.div_small_iff in E; lia).
+      rewrite (Z.mod_small z 10) by lia. cbn [ordinal_ok]. rewrite (digit19_hexdig z) by lia. exact Ha.
+    + apply Z.eqb_neq in E. apply IH; [|exact Ha'].
+      assert (H0 : 0 <= z / 10) by (apply Z.div_pos; lia).
+      split; [lia|].
+      apply Z.div_lt_upper_bound; [lia|].
+      rewrite Nat2Z.inj_succ, Z.pow_succ_r in Hz by lia.
+      assert (0 < 2 ^ Z.of_nat k) by (apply Z.pow_pos_nonneg; lia). lia.
+Qed.
+
+Lemma digits_ordinal z : 0 < z -> ordinal_ok (digits 10 z) = true.
+Proof.
+  intros Hz. unfold digits. apply digits_fuel_ordinal; [|reflexivity].
+  split; [exact Hz|].
+  rewrite Nat2Z.inj_succ, Z2Nat.id by (apply Z.log2_nonneg).
+  apply Z.log2_spec, Hz.
+Qed.
+
+(* int_text_ok: what formatInteger writes is an integer literal of the scanner *)
+Theorem int_text_ok z : is_integer_literal (dec_text z) = true.
+Proof.
+  unfold is_integer_literal, dec_text. destruct (z <? 0) eqn:E.
+  - apply Z.ltb_lt in E. apply orb_true_iff. right.
+    cbn [strip_sign]. change (is_sign 45) with true. cbv beta iota.
+    apply digits_ordinal. lia.
+  - apply Z.ltb_ge in E. destruct (Z.eq_dec z 0) as [->|Hn].
+    + reflexivity.
+    + apply orb_true_iff. right.
+      pose proof (digits_ordinal z ltac:(lia)) as H.
+      destruct (digits 10 z) as [|d r] eqn:Ed; [discriminate|].
+      cbn [strip_sign]. cbn [ordinal_ok] in H. apply andb_true_iff in H as [H1 H2].
+      rewrite (digit_not_sign d (digit19_digit d H1)). cbn [ordinal_ok]. rewrite H1, H2. reflexivity.
+Qed.
